@@ -104,6 +104,18 @@ CHECKS = {
         note='In-process crash simulation (BaseException at effect boundaries; written data assumed on disk); '
              'TensorBoard summaries stubbed; harness-supplied deterministic algorithm/eval fns; TLC, JVM.',
         design='5/C09'),
+    'C10': dict(
+        technique='TLA+ spec Purity.tla enumerates every history tree of apply / re-apply / serialise-restore-continue '
+                  '(TLC), with the mutates-input, hidden-state and lossy-round-trip deviations reported; each history '
+                  'executed on all seven built-in algorithms and on loops around the compression aggregators; every '
+                  'state fingerprinted after every operation; events judged by TLC (PureHistory.tla)',
+        text='TLC enumerates all history trees of depth <= 3 (quick) / 4 (thorough) over 3 cohorts (repeated '
+             'participation included); for every algorithm the real execution of each history must satisfy Functional '
+             '(same state value and cohort give the same new state and diagnostics, also from a pickled or '
+             'checkpointed copy) and Immutable (no existing state changes fingerprint or loses a buffer).',
+        note='Bit-identical comparison on the CPU backend; fingerprints include nested container key sets and deleted '
+             'buffers; rank >= 1 leaves for the rotation-based aggregators.',
+        design='5/C10'),
     'C12': dict(
         technique='TLA+ spec FedRound.tla with a proximal weight model-checked by TLC; FedRoundOracle computes the exact '
                   'FedAvg / FedProx(mu) / full-batch-step parameters for random exact-island instances; the real fed_prox, '
